@@ -183,6 +183,29 @@ def parsePaths (s : String) : Option (List (List (Nat × Op))) :=
 
 /-! #### C05: does a charstring lie in the domain of `C05_progress` / `C05_quirks_irrelevant`? -/
 
+/-- an integer operand in its shortest encoding at the head of the code -/
+def peekInt : List Nat → Option (Int × List Nat)
+  | b0 :: rest =>
+    if 32 ≤ b0 ∧ b0 ≤ 246 then some ((b0 : Int) - 139, rest)
+    else if 247 ≤ b0 ∧ b0 ≤ 250 then (match rest with | b1 :: r => some (((b0 : Int) - 247) * 256 + b1 + 108, r) | [] => none)
+    else if 251 ≤ b0 ∧ b0 ≤ 254 then (match rest with | b1 :: r => some ((251 - (b0 : Int)) * 256 - b1 - 108, r) | [] => none)
+    else if b0 = 28 then (match rest with | b1 :: b2 :: r => some (toI16 (b1 * 256 + b2), r) | _ => none)
+    else none
+  | [] => none
+
+/-- "v op" / "n j roll" with a value-dependent operator: the compound token and the rest -/
+def litTok (v : Int) (r : List Nat) : Option (Spec.T2.Tok × List Nat) :=
+  match r with
+  | 12 :: 12 :: r' => some (.lit (.div v), r')
+  | 12 :: 26 :: r' => some (.lit (.sqrt v), r')
+  | 12 :: 29 :: r' => some (.lit (.index v), r')
+  | 12 :: 20 :: r' => some (.lit (.put v), r')
+  | 12 :: 21 :: r' => some (.lit (.get v), r')
+  | _ =>
+    match peekInt r with
+    | some (j, 12 :: 30 :: r') => some (.lit (.roll v j), r')
+    | _ => none
+
 /-- bytes → tokens of the static grammar, checking `wfTok` on the way (the mask length depends on the
 grammar state); `none` = not a program of the grammar -/
 def tokRun : Nat → Spec.T2.Abs → List Nat → List Spec.T2.Tok → Option (Spec.T2.Abs × List Spec.T2.Tok)
@@ -190,18 +213,21 @@ def tokRun : Nat → Spec.T2.Abs → List Nat → List Spec.T2.Tok → Option (S
   | _ + 1, a, [], acc => some (a, acc.reverse)
   | f + 1, a, b0 :: rest, acc =>
     let num (t : Spec.T2.Tok) (r : List Nat) := (Spec.T2.wfTok a t).bind fun a' => tokRun f a' r (t :: acc)
-    if 32 ≤ b0 ∧ b0 ≤ 246 then num (.int ((b0 : Int) - 139)) rest
+    let inum (v : Int) (r : List Nat) := match litTok v r with
+      | some (t, r') => num t r'
+      | none => num (.int v) r
+    if 32 ≤ b0 ∧ b0 ≤ 246 then inum ((b0 : Int) - 139) rest
     else if 247 ≤ b0 ∧ b0 ≤ 250 then
       match rest with
-      | b1 :: r => num (.int (((b0 : Int) - 247) * 256 + b1 + 108)) r
+      | b1 :: r => inum (((b0 : Int) - 247) * 256 + b1 + 108) r
       | [] => none
     else if 251 ≤ b0 ∧ b0 ≤ 254 then
       match rest with
-      | b1 :: r => num (.int ((251 - (b0 : Int)) * 256 - b1 - 108)) r
+      | b1 :: r => inum ((251 - (b0 : Int)) * 256 - b1 - 108) r
       | [] => none
     else if b0 = 28 then
       match rest with
-      | b1 :: b2 :: r => num (.int (toI16 (b1 * 256 + b2))) r
+      | b1 :: b2 :: r => inum (toI16 (b1 * 256 + b2)) r
       | _ => none
     else if b0 = 255 then
       match rest with
@@ -266,7 +292,10 @@ def tokP (lb gb : Array (List Nat)) :
                 | some m3 =>
                   if a2.ended then (if r'.isEmpty then some (a2, (Spec.T2.PTok.call g idx.toNat :: acc).reverse, m3) else none)
                   else tokP lb gb f dep a2 r' (.call g idx.toNat :: acc) m3
-        | _ => tokc (.int v) r
+        | _ =>
+          match litTok v r with
+          | some (t, r') => tokc t r'
+          | none => tokc (.int v) r
       if 32 ≤ b0 ∧ b0 ≤ 246 then intc ((b0 : Int) - 139) rest
       else if 247 ≤ b0 ∧ b0 ≤ 250 then
         match rest with
